@@ -1,18 +1,18 @@
 SPECIFICATION Spec
 CONSTANTS
-  Subs = {"p1", "n"}
-  OptSets <- OptAll
-  MaxPub = 2
+  Subs = {"p1", "p2"}
+  OptSets <- OptShared
+  MaxPub = 1
   MaxFaults = 1
-  MaxTicks = 1
-  MaxResub = 1
+  MaxTicks = 4
+  MaxResub = 0
   QMax = 1
-  Timed = FALSE
+  Timed = TRUE
   CheckDelay = 40
-  Advances = {}
-  MaxNow = 0
+  Advances = {12, 38, 50}
+  MaxNow = 112
   Urgent = FALSE
 VIEW View
 INVARIANTS TypeOK InOrder GapFree Bracketed NoSilentLoss
-PROPERTIES TickEnds TickExact
+PROPERTIES TickOneExact StampMoves
 CHECK_DEADLOCK FALSE
